@@ -730,6 +730,19 @@ func (vc *VC) loopEnv(li *loopInfo, st *State, phiVal func(*ssa.Phi) Term) *Env 
 			if !ok {
 				continue
 			}
+			if pv, isStr := vc.strRangeVar(rg); isStr {
+				// $pos: the byte position the string iteration of this loop has reached; $str: the string
+				if _, started := vc.vals[rg]; started {
+					for _, sf := range []string{fmt.Sprint(lj.ordinal), ""} {
+						if sf == "" && lj != li {
+							continue
+						}
+						e.vars["$pos"+sf] = Term{S: vc.get(st, pv, "Int"), Sort: "Int", T: types.Typ[types.Int]}
+						e.vars["$str"+sf] = vc.vals[rg]
+					}
+				}
+				continue
+			}
 			name, sortName, mt := vc.rangeVar(rg)
 			if mt == nil {
 				continue
@@ -1440,16 +1453,19 @@ func (vc *VC) binop(x *ssa.BinOp, guard string) Term {
 		if isFloat {
 			return vc.uninterp2("float_add", a, b, t)
 		}
+		vc.overflowObl(x, t, sx("+", a.S, b.S), guard)
 		return res(wrap(t, sx("+", a.S, b.S)))
 	case token.SUB:
 		if isFloat {
 			return vc.uninterp2("float_sub", a, b, t)
 		}
+		vc.overflowObl(x, t, sx("-", a.S, b.S), guard)
 		return res(wrap(t, sx("-", a.S, b.S)))
 	case token.MUL:
 		if isFloat {
 			return vc.uninterp2("float_mul", a, b, t)
 		}
+		vc.overflowObl(x, t, sx("*", a.S, b.S), guard)
 		return res(wrap(t, sx("*", a.S, b.S)))
 	case token.QUO, token.REM:
 		if isFloat {
@@ -1498,6 +1514,23 @@ func (vc *VC) binop(x *ssa.BinOp, guard string) Term {
 	}
 	vc.failf("unsupported binary operator %s", x.Op)
 	return Term{}
+}
+
+// overflowObl: where the contract says `nooverflow`, integer arithmetic and narrowing conversions
+// must not wrap: the mathematical result lies in the range of the static type.
+func (vc *VC) overflowObl(in ssa.Instruction, t types.Type, math string, guard string) {
+	if len(vc.spec.NoOverflow) == 0 {
+		return
+	}
+	lo, hi, ok := intBounds(t)
+	if !ok {
+		return
+	}
+	if b, isb := types.Unalias(t).Underlying().(*types.Basic); isb && b.Info()&types.IsFloat != 0 {
+		return
+	}
+	vc.oblige("nooverflow", vc.srcLabel(in), vc.spec.NoOverflow, guard, and(sx("<=", lo, math), sx("<=", math, hi)),
+		"the mathematical result fits the type "+shortTypeName(t)+" (no silent wrap-around)", in.Pos())
 }
 
 func pow2big(k int64) string {
@@ -1549,6 +1582,7 @@ func (vc *VC) convert(st *State, x *ssa.Convert) {
 	tb, tok := to.(*types.Basic)
 	switch {
 	case fok && tok && fb.Info()&types.IsInteger != 0 && tb.Info()&types.IsInteger != 0:
+		vc.overflowObl(x, x.Type(), a.S, vc.curGuard)
 		vc.define(x, Term{S: wrap(x.Type(), a.S), Sort: "Int", T: x.Type()})
 	case fok && tok && fb.Info()&types.IsFloat != 0 && tb.Info()&types.IsFloat != 0:
 		if fb.Kind() == tb.Kind() {
